@@ -140,6 +140,9 @@ func (e *Engine) Apply(op *Op) error {
 		return e.dropDetached(op)
 	case "nop":
 		return nil
+	case "f7probe":
+		// never generated: the history of known finding F7 (known/F7.json)
+		return e.f7probe(op.N)
 	case "badrange", "badid", "badreopen", "mbadset":
 		return e.rejectedOp(op)
 	}
@@ -738,6 +741,17 @@ func (e *Engine) mapOp(n *Node, op *Op) error {
 		}
 		if total > 6000 {
 			total = 6000
+		}
+		if n.Dig != nil && n.Dig.Levels >= 3 && n.Dig.Alpha[0] != 0 && n.Dig.Alpha[0] <= 5 && n.Dig.Alpha[1] != 0 && n.Dig.Alpha[1] <= 5 {
+			// known finding F7 (DESIGN.md 10), excluded by construction: more than 8191 entries that share their first
+			// two digests (a nested group inside an external collision group, which has no size limit) cannot be encoded
+			if room := 8000 - len(n.Ents); total > room {
+				if room < 0 {
+					room = 0
+				}
+				e.Stats.Add("excluded_known_F7", total-room)
+				total = room
+			}
 		}
 		if g := e.Cfg.HipGroups; g > 0 {
 			// keys of one hash-input group collide at the first level of the default digester; the collision limit
@@ -1427,6 +1441,35 @@ func (e *Engine) bulkTick(n *Node, i, total int) error {
 		if err := e.checkStructure(); err != nil {
 			return err
 		}
+	}
+	return nil
+}
+
+// f7probe: n keys that share their first two digests (third level distinct) in a scratch storage, commit, reload.
+func (e *Engine) f7probe(n int) error {
+	l := NewLedger()
+	st := NewStorage(l)
+	spec := &DigSpec{Levels: 3, Alpha: [4]uint64{1, 1, 0, 0}}
+	cb := &Callbacks{}
+	m, err := atree.NewMap(st, addrOf(1), newGenDigesterBuilder(spec), TI{N: 2})
+	if err != nil {
+		return e.viol("NewMap failed: %v", err)
+	}
+	for i := 0; i < n; i++ {
+		if _, err := m.Set(cb.Compare, cb.HashInput, U64(uint64(i)), U64(uint64(i))); err != nil {
+			return e.viol("Set %d of %d failed: %v", i, n, err)
+		}
+	}
+	if err := st.FastCommit(2); err != nil {
+		return e.viol("commit failed: %v", err)
+	}
+	st2 := NewStorage(l)
+	m2, err := atree.NewMapWithRootID(st2, m.SlabID(), newGenDigesterBuilder(spec))
+	if err == nil {
+		_, err = m2.Get(cb.Compare, cb.HashInput, U64(uint64(n-1)))
+	}
+	if err != nil {
+		return e.viol("F7: a map whose %d keys share their first two digests (one external collision group with a nested group of %d entries) was committed without error but cannot be read back from its registers: %v", n, n, err)
 	}
 	return nil
 }
